@@ -2,6 +2,8 @@
 (***************************************************************************)
 (* Trace validation for the parser (impl -> spec).  Two grains:             *)
 (*                                                                          *)
+(*  "bdoc" events: the same for byte input (parse_slice), decided by         *)
+(*     Utf8!RunBytes (well-formed prefix, then the first ill-formed sequence).*)
 (*  "doc" events (coarse): one event per real parse: input, options,        *)
 (*     observed outcome and number of characters pulled.  The outcome must  *)
 (*     be the specification's Outcome(Run(input, options)).                 *)
@@ -21,7 +23,7 @@
 (* A mismatching event is recorded in `bad` with a reason, and the rest of  *)
 (* that parse is skipped; the following parses are still validated.         *)
 (***************************************************************************)
-EXTENDS JsonParser, TLC, Json, IOUtils
+EXTENDS Utf8, TLC, Json, IOUtils
 
 Rec == ndJsonDeserialize(IOEnv.TRACE)
 
@@ -33,6 +35,7 @@ Range(s) == {s[i] : i \in 1..Len(s)}
 ErrMatches(se, ge) ==
   IF se.kind # ge.kind THEN FALSE
   ELSE IF se.kind = "unexpected" THEN se.pos = ge.pos /\ se.ch = ge.ch
+  ELSE IF se.kind = "utf8" THEN se.pos = ge.pos
   ELSE \* surrogate: the offending units, and a span inside the offending escape(s)
        /\ se.region[1] <= ge.span[1] /\ ge.span[1] <= ge.span[2] /\ ge.span[2] <= se.region[2]
        /\ IF se.variant = ge.variant THEN se.units = ge.units ELSE Range(ge.units) \subseteq Range(se.units)
@@ -60,6 +63,10 @@ TrNext ==
   /\ LET e == Rec[l] IN
      CASE e.ev = "doc" ->
             LET why == Why(Outcome(Run(e.w, Opts(e.o))), e.out, IsStrict(e.o), e.pulls) IN
+            /\ bad' = IF why = "" THEN bad ELSE Append(bad, <<l, why>>)
+            /\ UNCHANGED <<st, opt, pend, skip>>
+       [] e.ev = "bdoc" ->   \* byte input through the slice entry points
+            LET why == Why(Outcome(RunBytes(e.b, Opts(e.o))), e.out, IsStrict(e.o), 0) IN
             /\ bad' = IF why = "" THEN bad ELSE Append(bad, <<l, why>>)
             /\ UNCHANGED <<st, opt, pend, skip>>
        [] e.ev = "start" ->
